@@ -49,56 +49,66 @@ theorem decodeT15_ok {bs : List UInt8} {m : Msg} (h : Spec.decodeT15 bs = ok m) 
     · cases h
   · exact ⟨_, (ok_inj h).symm⟩
 
-/-! ### The specification never panics -/
+/-! ### The specification never panics and never produces a checksum error -/
+
+/-- Neither a panic nor a `Checksum` error. -/
+def Clean {α : Type} (r : Res α) : Prop := (∀ p, r ≠ panic p) ∧ (∀ a b, r ≠ err (.checksum a b))
 
 def NoPanic {α : Type} (r : Res α) : Prop := ∀ p, r ≠ panic p
 
-theorem np_ok {α : Type} (a : α) : NoPanic (ok a) := fun _ h => by cases h
-theorem np_err {α : Type} (e : Err) : NoPanic (err e : Res α) := fun _ h => by cases h
-theorem np_eof {α : Type} : NoPanic (Spec.eof : Res α) := np_err _
-theorem np_ite {α : Type} {c : Prop} [Decidable c] {a b : Res α} (ha : NoPanic a) (hb : NoPanic b) :
-    NoPanic (if c then a else b) := by split <;> assumption
+theorem cl_ok {α : Type} (a : α) : Clean (ok a) := ⟨fun _ h => (by cases h), fun _ _ h => (by cases h)⟩
+theorem cl_nomError {α : Type} (k : NomKind) : Clean (err (.nomError k) : Res α) :=
+  ⟨fun _ h => (by cases h), fun _ _ h => (by cases h)⟩
+theorem cl_nomFailure {α : Type} (k : NomKind) : Clean (err (.nomFailure k) : Res α) :=
+  ⟨fun _ h => (by cases h), fun _ _ h => (by cases h)⟩
+theorem cl_text {α : Type} (m : ErrMsg) : Clean (err (.text m) : Res α) :=
+  ⟨fun _ h => (by cases h), fun _ _ h => (by cases h)⟩
+theorem cl_eof {α : Type} : Clean (Spec.eof : Res α) := cl_nomError _
+theorem cl_ite {α : Type} {c : Prop} [Decidable c] {a b : Res α} (ha : Clean a) (hb : Clean b) :
+    Clean (if c then a else b) := by split <;> assumption
 
-theorem np_capped (cfg : Cfg) (n lim : Nat) {r : Res Msg} (hr : NoPanic r) : NoPanic (Spec.capped cfg n lim r) :=
-  np_ite (np_err _) hr
+theorem cl_capped (cfg : Cfg) (n lim : Nat) {r : Res Msg} (hr : Clean r) : Clean (Spec.capped cfg n lim r) :=
+  cl_ite (cl_nomFailure _) hr
 
-theorem np_specRadioTail (mk : List (Key × Val) → Msg) (bs : List UInt8) (s t : Nat) :
-    NoPanic (Spec.specRadioTail mk bs s t) := by
+theorem cl_specRadioTail (mk : List (Key × Val) → Msg) (bs : List UInt8) (s t : Nat) :
+    Clean (Spec.specRadioTail mk bs s t) := by
   unfold Spec.specRadioTail
-  refine np_ite ?_ np_eof
+  refine cl_ite ?_ cl_eof
   cases Spec.radioOf (field bs 0 6) (field bs s 19) with
-  | none => exact np_err _
-  | some r => exact np_ite (np_ok _) np_eof
+  | none => exact cl_nomFailure _
+  | some r => exact cl_ite (cl_ok _) cl_eof
 
-theorem np_decodeT15 (bs : List UInt8) : NoPanic (Spec.decodeT15 bs) :=
-  np_ite (np_ite (np_ok _) (np_err _)) (np_ok _)
+theorem cl_decodeT15 (bs : List UInt8) : Clean (Spec.decodeT15 bs) :=
+  cl_ite (cl_ite (cl_ok _) (cl_nomError _)) (cl_ok _)
 
-theorem np_dispatch (cfg : Cfg) (t : Nat) (bs : List UInt8) : NoPanic (Spec.dispatch cfg t bs) := by
+theorem cl_dispatch (cfg : Cfg) (t : Nat) (bs : List UInt8) : Clean (Spec.dispatch cfg t bs) := by
   unfold Spec.dispatch Spec.specT01 Spec.specBase Spec.specT09
-  exact (np_ite (np_specRadioTail _ _ _ _)
-    (np_ite (np_specRadioTail _ _ _ _)
-    (np_ite (np_ite (np_ok _) np_eof)
-    (np_ite (np_ite (np_ok _) np_eof)
-    (np_ite (np_ite (np_capped _ _ _ (np_ok _)) np_eof)
-    (np_ite (np_ite (np_capped _ _ _ (np_ok _)) np_eof)
-    (np_ite (np_specRadioTail _ _ _ _)
-    (np_ite (np_ite (np_ok _) np_eof)
-    (np_ite (np_specRadioTail _ _ _ _)
-    (np_ite (np_ite (np_capped _ _ _ (np_ok _)) np_eof)
-    (np_ite (np_ite (np_ok _) np_eof)
-    (np_ite (np_ite (np_capped _ _ _ (np_ok _)) np_eof)
-    (np_ite (np_ite (np_decodeT15 _) np_eof)
-    (np_ite (np_ite (np_ok _) np_eof)
-    (np_ite (np_ite (np_capped _ _ _ (np_ok _)) np_eof)
-    (np_ite (np_ite (np_ok _) np_eof)
-    (np_ite (np_ite (np_ok _) np_eof)
-    (np_ite (np_ite (np_ok _) np_eof)
-    (np_ite (np_ite (np_ok _) np_eof)
-    (np_ite (np_ite (np_ite (np_ite (np_ok _) np_eof) (np_ite (np_ite (np_ok _) np_eof) (np_ok _))) np_eof)
-    (np_ite (np_ite (np_ok _) np_eof)
-    (np_err _))))))))))))))))))))))
+  exact (cl_ite (cl_specRadioTail _ _ _ _)
+    (cl_ite (cl_specRadioTail _ _ _ _)
+    (cl_ite (cl_ite (cl_ok _) cl_eof)
+    (cl_ite (cl_ite (cl_ok _) cl_eof)
+    (cl_ite (cl_ite (cl_capped _ _ _ (cl_ok _)) cl_eof)
+    (cl_ite (cl_ite (cl_capped _ _ _ (cl_ok _)) cl_eof)
+    (cl_ite (cl_specRadioTail _ _ _ _)
+    (cl_ite (cl_ite (cl_ok _) cl_eof)
+    (cl_ite (cl_specRadioTail _ _ _ _)
+    (cl_ite (cl_ite (cl_capped _ _ _ (cl_ok _)) cl_eof)
+    (cl_ite (cl_ite (cl_ok _) cl_eof)
+    (cl_ite (cl_ite (cl_capped _ _ _ (cl_ok _)) cl_eof)
+    (cl_ite (cl_ite (cl_decodeT15 _) cl_eof)
+    (cl_ite (cl_ite (cl_ok _) cl_eof)
+    (cl_ite (cl_ite (cl_capped _ _ _ (cl_ok _)) cl_eof)
+    (cl_ite (cl_ite (cl_ok _) cl_eof)
+    (cl_ite (cl_ite (cl_ok _) cl_eof)
+    (cl_ite (cl_ite (cl_ok _) cl_eof)
+    (cl_ite (cl_ite (cl_ok _) cl_eof)
+    (cl_ite (cl_ite (cl_ite (cl_ite (cl_ok _) cl_eof) (cl_ite (cl_ite (cl_ok _) cl_eof) (cl_ok _))) cl_eof)
+    (cl_ite (cl_ite (cl_ok _) cl_eof)
+    (cl_text _))))))))))))))))))))))
 
-theorem decode_noPanic (cfg : Cfg) (bs : List UInt8) : NoPanic (Spec.decode cfg bs) :=
-  np_ite (np_dispatch cfg _ bs) np_eof
+theorem decode_clean (cfg : Cfg) (bs : List UInt8) : Clean (Spec.decode cfg bs) :=
+  cl_ite (cl_dispatch cfg _ bs) cl_eof
+
+theorem decode_noPanic (cfg : Cfg) (bs : List UInt8) : NoPanic (Spec.decode cfg bs) := (decode_clean cfg bs).1
 
 end AisVerif
